@@ -644,6 +644,10 @@ class ThreadEmitter:
         if a.c is not None and b.c is not None and op in ('add', 'sub', 'and', 'or', 'xor', 'mul'):
             v = {'add': a.c + b.c, 'sub': a.c - b.c, 'and': a.c & b.c, 'or': a.c | b.c, 'xor': a.c ^ b.c, 'mul': a.c * b.c}[op]
             return X.const(v, bits)
+        if a.c is not None and b.c is not None and op in ('udiv', 'urem') and b.c != 0:
+            return X.const(a.c // b.c if op == 'udiv' else a.c % b.c, bits)
+        if a.c is not None and b.c is not None and op in ('shl', 'lshr') and b.c < bits:
+            return X.const((a.c << b.c) if op == 'shl' else (a.c >> b.c), bits)
         A, B = a.s, b.s
         st = 'int%d_t' % (8 if bits <= 8 else 16 if bits <= 16 else 32 if bits <= 32 else 64)
         if op in ('add', 'sub', 'mul', 'and', 'or', 'xor'):
@@ -737,11 +741,20 @@ class ThreadEmitter:
         bits = G.leaves(I['ty'])[0]
         self.vp('VF_K_ATOMIC', x.s)
         loc = self.atomic_loc(x, bits)
+        hk = G.cfg.get('atomic_hooks')
+        if hk and not getattr(self, 'in_hook', False):
+            # thread-modular mode: the harness function hk['pre'] (the environment) runs before every atomic access
+            self.call_harness_fn(inst, hk['pre'], [[x]])
         if op == 'load':
             self.gen_load(x, bits, inst.regs[I['res']][0], 'atomic load')
             self.emit('VF_ATOMIC_LOAD_HOOK(%s, %d);' % (loc, ORD[I['ord']]))
         elif op == 'store':
             v = self.val1(inst, I['val'], I['ty'])
+            if hk and not getattr(self, 'in_hook', False):
+                old = self.tmp()
+                self.emit('%s %s = 0;' % (ctype_bits(bits), old))
+                self.gen_load(x, bits, old, 'atomic store (old value for the guarantee check)')
+                self.call_harness_fn(inst, hk['write'], [[x], [X(old)], [v]])
             self.emit('VF_ATOMIC_STORE_HOOK(%s, %d);' % (loc, ORD[I['ord']]))
             self.gen_store(x, bits, v.s, 'atomic store')
         elif op == 'cmpxchg':
@@ -751,6 +764,9 @@ class ThreadEmitter:
             cmpv = self.val1(inst, I['cmp'], I['ty']); newv = self.val1(inst, I['new'], I['ty'])
             lv = inst.regs[I['res']]
             self.emit('%s = %s; %s = (uint8_t)(%s == %s);' % (lv[0], old, lv[1], old, cmpv.s))
+            if hk and not getattr(self, 'in_hook', False):
+                # guarantee check on the successful write: hk['write'](addr, old, new), executed only when the CAS succeeds
+                self.call_harness_fn(inst, hk['write'], [[x], [X(old)], [newv]], cond=lv[1])
             self.emit('if (%s) { VF_ATOMIC_RMW_HOOK(%s, %d);' % (lv[1], loc, ORD[I['ord']]))
             self.gen_store(x, bits, newv.s, 'cmpxchg')
             self.emit('} else { VF_ATOMIC_LOAD_HOOK(%s, %d); }' % (loc, ORD[I['ford']]))
@@ -762,6 +778,37 @@ class ThreadEmitter:
             nv = v.s if I['rmw'] == 'xchg' else '(%s)(%s %s %s)' % (ctype_bits(bits), old, o, v.s)
             self.emit('VF_ATOMIC_RMW_HOOK(%s, %d);' % (loc, ORD[I['ord']]))
             self.gen_store(x, bits, nv, 'atomicrmw')
+
+    def call_harness_fn(self, inst, name, args, cond=None):
+        """instantiate harness function `name` in place (its own atomics are not hooked again); splits the current segment"""
+        g = self.G.M.funcs[name]
+        if self.suppress:
+            return
+        # temporaries declared in this segment do not survive the split: pass them through static registers
+        args2 = []
+        for a in args:
+            row = []
+            for x in a:
+                if x.c is None and re.match(r'^t\d+_\d+$', x.s):
+                    nm = 'H%d_%d' % (self.tid, self.ntmp); self.ntmp += 1
+                    self.G.statics.append('static uint64_t %s;' % nm)
+                    self.emit('%s = %s;' % (nm, x.s))
+                    row.append(X(nm, None, x.org))
+                else:
+                    row.append(x)
+            args2.append(row)
+        cf = self.mark(self.flag()); after = self.flag()
+        if cond is None:
+            self.emit('%s = 1;' % cf)
+        else:
+            self.emit('if (%s) { %s = 1; } else { %s = 1; }' % (cond, cf, self.mark(after)))
+        self.close()
+        self.in_hook = True
+        self.stack.append(name)
+        self.instantiate(g, args2, cf, lambda xs, after=after: '%s = 1;' % self.mark(after))
+        self.stack.pop()
+        self.in_hook = False
+        self.open(after)
 
     def atomic_loc(self, x, bits):
         """expression identifying the atomic location for the happens-before runtime (its address)"""
@@ -785,6 +832,9 @@ class ThreadEmitter:
             g = M.funcs.get(n)
             if g is None or not g.defined:
                 raise NotImplementedError('call to undefined external %s from %s' % (n, f.name))
+            if self.excluded(n):
+                self.emit('VF_BAD_ACCESS(0, "call to a function excluded from this scenario (asserted unreachable): %s");' % n)
+                return
             cands = [(None, g)]
             fp = None
         else:
@@ -799,7 +849,7 @@ class ThreadEmitter:
                 g = M.funcs.get(a)
                 if g is None or not g.defined:
                     continue
-                if (norm(g.ret), tuple(norm(t) for t, _ in g.params)) == want:
+                if (norm(g.ret), tuple(norm(t) for t, _ in g.params)) == want and not self.excluded(a):
                     cands.append((G.fnid[a], g))
             if fp.c is not None:
                 cands = [(fid, g) for (fid, g) in cands if fid == fp.c]      # callee known at translation time
@@ -844,6 +894,10 @@ class ThreadEmitter:
                 inst.org[res] = (t[1][1], frozenset([0]))
         self.open(after)
 
+    def excluded(self, n):
+        import fnmatch
+        return any(fnmatch.fnmatch(n, p) for p in self.G.cfg.get('exclude_fns', []))
+
     def special_call(self, inst, f, I, n, args):
         G = self.G
         res = I['res']
@@ -866,6 +920,9 @@ class ThreadEmitter:
                 raise NotImplementedError('memcpy with symbolic length in %s' % f.name)
             self.gen_memcpy(args[0][0], args[1][0], args[2][0].c)
             return True
+        if n == 'vf_assert_at':
+            self.emit('VF_HASSERT(%s, %s);' % (args[0][0].s, args[1][0].s))
+            return True
         if n == 'vf_assert':
             G.assert_n += 1
             self.emit('VF_HASSERT(%s, %d);' % (args[0][0].s, self.srcline(I)))
@@ -878,6 +935,9 @@ class ThreadEmitter:
             return True
         if n == 'vf_nondet':
             self.vp('VF_K_ATOMIC')
+            setres('vf_nondet_u32()')
+            return True
+        if n == 'vf_nondet_nv':        # a solver-chosen value without a scheduling point
             setres('vf_nondet_u32()')
             return True
         if n == 'vf_event':
